@@ -74,10 +74,40 @@ type FileSpec struct {
 	Name    string `json:"name"`
 	Content string `json:"content"`
 	Removed bool   `json:"removed,omitempty"` // entries of this file get State=Removed
+	// State of the file's entries: "" / "noop" (unmodified), "added", "modified", "moved" (renamed).
+	State string `json:"state,omitempty"`
+}
+
+// stateNames maps an entry state to the word match{state=[...]} uses for it (docs/configuration.md).
+var stateNames = map[discovery.ChangeType]string{
+	discovery.Noop: "unmodified", discovery.Added: "added", discovery.Modified: "modified",
+	discovery.Moved: "renamed", discovery.Removed: "removed",
+}
+
+func fileState(f FileSpec) discovery.ChangeType {
+	switch {
+	case f.Removed:
+		return discovery.Removed
+	case f.State == "added":
+		return discovery.Added
+	case f.State == "modified":
+		return discovery.Modified
+	case f.State == "moved":
+		return discovery.Moved
+	}
+	return discovery.Noop
+}
+
+// stateListMatches: documented meaning of match{state=[...]}; an absent list on an enable/disable block does
+// not filter by state.
+func stateListMatches(list []string, state string) bool {
+	return len(list) == 0 || slices.Contains(list, "any") || slices.Contains(list, state)
 }
 
 type RuleSwitch struct {
 	MatchKind string   `json:"match_kind,omitempty"` // "" (every rule) | "alerting" | "recording"
+	// MatchState: match{state=[...]} of the block (empty = no state filter, whatever the command)
+	MatchState []string `json:"match_state,omitempty"`
 	Enable    []string `json:"enable,omitempty"`
 	Disable   []string `json:"disable,omitempty"`
 	First     bool     `json:"first,omitempty"` // rendered before the other rule blocks
@@ -86,8 +116,15 @@ type RuleSwitch struct {
 func (rs RuleSwitch) hcl() string {
 	var b strings.Builder
 	b.WriteString("rule {\n")
-	if rs.MatchKind != "" {
-		fmt.Fprintf(&b, "  match {\n    kind = %q\n  }\n", rs.MatchKind)
+	if rs.MatchKind != "" || len(rs.MatchState) > 0 {
+		b.WriteString("  match {\n")
+		if rs.MatchKind != "" {
+			fmt.Fprintf(&b, "    kind = %q\n", rs.MatchKind)
+		}
+		if len(rs.MatchState) > 0 {
+			fmt.Fprintf(&b, "    state = [%s]\n", quoteList(rs.MatchState))
+		}
+		b.WriteString("  }\n")
 	}
 	if len(rs.Enable) > 0 {
 		fmt.Fprintf(&b, "  enable = [%s]\n", quoteList(rs.Enable))
@@ -100,10 +137,13 @@ func (rs RuleSwitch) hcl() string {
 }
 
 // ruleEnables: does a baseline rule block switch name on for rules of this kind (and none switch it off)?
-func ruleEnables(sw []RuleSwitch, kind, name string) bool {
+func ruleEnables(sw []RuleSwitch, kind, state, name string) bool {
 	on := false
 	for _, rs := range sw {
 		if rs.MatchKind != "" && rs.MatchKind != kind {
+			continue
+		}
+		if !stateListMatches(rs.MatchState, state) {
 			continue
 		}
 		if slices.Contains(rs.Disable, name) {
@@ -124,6 +164,10 @@ type Case struct {
 	Name      string     `json:"name"`
 	Mechanism string     `json:"mechanism"`
 	RulePos   string     `json:"rule_pos,omitempty"` // rule{disable}: "first" | "last" | "merge"
+	// Command in the context of the run: "" (none) | "lint" | "ci" | "watch". Under ci a match block without
+	// `state` on a CHECK-defining rule block defaults to added/modified/renamed (documented); enable/disable
+	// blocks without match apply to every rule.
+	Command string `json:"command,omitempty"`
 	// Switches: baseline `rule { [match { kind = ... }] enable = [...] disable = [...] }` blocks, and names the
 	// baseline already lists in checks { disabled = [...] }. Documented semantics (docs/configuration.md): a rule
 	// block's `enable` overrides the global disabled list for the rules it matches, `disable` beats `enable`.
@@ -386,7 +430,7 @@ func expected(c Case, base []problem, name, mechanism string) []problem {
 	for _, p := range base {
 		switch mechanism {
 		case mCfgDisabled, mCLIDisabled:
-			if p.Reporter != name || ruleEnables(c.Switches, p.Kind, name) {
+			if p.Reporter != name || ruleEnables(c.Switches, p.Kind, p.State, name) {
 				out = append(out, p)
 			}
 		case mRuleDisable:
@@ -398,7 +442,7 @@ func expected(c Case, base []problem, name, mechanism string) []problem {
 				out = append(out, p)
 			}
 		case mOffline:
-			if !slices.Contains(documentedOnline, p.Reporter) || ruleEnables(c.Switches, p.Kind, p.Reporter) {
+			if !slices.Contains(documentedOnline, p.Reporter) || ruleEnables(c.Switches, p.Kind, p.State, p.Reporter) {
 				out = append(out, p)
 			}
 		case mDefault:
